@@ -155,7 +155,7 @@ class C10(Check):
         "default-less field is rejected by validate(strict) and by the strict writer. Non-trivial = mutated datum or "
         "non-default options. Distinct by digest."
     )
-    assumptions = ["float-typed leaves representable in the target width", "tuples of length != 2 at union positions are not generated",
+    assumptions = ["float-typed leaves representable in the target width", "tuples of length != 2 at union positions appear in fixed cases only",
                    "data are built from the Python types the statement lists; look-alike number types (fractions.Fraction, numpy scalars: fastavro accepts numbers.Integral / numbers.Real by design) are outside the domain"]
     required_labels = ["expected:True", "expected:False", "strict", "raise_errors", "no-tuple-notation", "rejected-by-writer", "accepted-roundtrip",
                        "mut:wrong-type", "mut:out-of-range", "mut:bool-for-int", "mut:wrong-fixed-size", "mut:unknown-symbol", "mut:non-string-key", "mut:missing-field", "mut:wrong-hint", "mut:wrong-type-hint", "strict-missing-nullable", "appending-writer", "logical-values", "logical-generated", "logical-by-name", "validate_many:several", "rejected-by-writer-function", "mapping-with-missing-hook"]
@@ -224,6 +224,13 @@ class C10(Check):
                 yield dict(base, schema=need_b, datum={"a": "x", "c": 5}, as_defaultdict="int", raise_errors=re_, strict=st_, mutation="missing-field")
                 yield dict(base, schema=need_b, datum={"a": "x", "b": 1}, as_defaultdict="none", raise_errors=re_, strict=st_, mutation="missing-field" if st_ else None)
                 yield dict(base, schema={"type": "array", "items": need_b}, datum=[{"a": "x", "b": 1, "c": None}, {"a": "y", "c": None}], as_defaultdict="int", raise_errors=re_, strict=st_, mutation="missing-field")
+        # a tuple that is not a (name, value) pair at a union position is not a hint and not a conforming datum (8fe81e8)
+        ua = ["null", {"type": "array", "items": "int"}, "string"]
+        for re_ in (False, True):
+            for t in ((1, 2, 3), (), (1,), ("string", "x", "y")):
+                yield dict(base, schema=ua, datum=t, raise_errors=re_, mutation="wrong-hint")
+            yield dict(base, schema={"type": "record", "name": "TU", "fields": [{"name": "u", "type": ua}]}, datum={"u": (1, 2, 3)}, raise_errors=re_, mutation="wrong-hint")
+            yield dict(base, schema=ua, datum=(1, 2, 3), raise_errors=re_, tuple_notation=False)
         yield dict(base, schema="int", datum=True)
         yield dict(base, schema="int", datum=2**31)
         yield dict(base, schema=[{"type": "enum", "name": "n.E", "symbols": ["A"]}, "string"], datum=("n.E", "A"))
